@@ -253,7 +253,7 @@ def run(tier, v):
     if quick:   # quick replays every third exported behaviour (offset by the seed), thorough all of them
         cases = cases[vlib.seed() % 3::3]
     cov["mbt_cases_exhaustive"] = len(cases)
-    for cfg, num in (("ArchiveGen_sim0.cfg", 300 if quick else 12000), ("ArchiveGen_sim.cfg", 200 if quick else 6000)):
+    for cfg, num in (("ArchiveGen_sim0.cfg", 300 if quick else 8000), ("ArchiveGen_sim.cfg", 200 if quick else 4000)):
         g2 = vlib.tlc("ArchiveGen", cfg, workers=1, timeout=1500, heap="4g", simulate="num=%d" % num, depth=250,
                       extra_args=["-seed", str(vlib.seed())])
         if g2["violated"]:
@@ -291,7 +291,7 @@ def run(tier, v):
     # ------------------------------------------------------------------ 3. impl -> spec
     out = os.path.join(vlib.scratch(), "c15tv")
     params = {"procs": 8, "shards": 2, "small": 640, "large": 8, "shrink": 240} if quick else \
-             {"procs": 8, "shards": 2, "small": 6000, "large": 60, "shrink": 2000}
+             {"procs": 8, "shards": 2, "small": 4000, "large": 40, "shrink": 1500}
     s = vlib.run_driver(h, "c15_tv", out, params, timeout=3000)
     if s.get("shards_crashed"):
         raise vlib.Infra("c15_tv: %d shard(s) crashed" % s["shards_crashed"])
